@@ -6,3 +6,23 @@ Open Scope N_scope.
 Theorem C09_oracle_wf `{Sig} : forall n s, wf2b n s = true <-> 0 < n /\ wf2 n s.
 Proof. exact wf2b_spec. Qed.
 Print Assumptions C09_oracle_wf.
+
+(** The round trip at the level of lexed items, for EVERY well-formed 2-map with fewer than 2^32 slots, any set of
+    removed darts, vertices defined or not: building from what [serialize] writes succeeds and gives back the
+    same images, the same removal flags and the same coordinates at every vertex.  The two premises about the
+    lexical layer (a printed coordinate reads back as itself; a vertex is rebuilt from its coordinates) are
+    hypotheses of the statement, exercised by the correspondence runs; the layout of the text (columns,
+    comments, blank lines) is below this model. *)
+From Coq Require Import ZArith.
+From HC Require Import Map2.Orbit2 IO.CMapText IO.CMapRound.
+Theorem C09_roundtrip_items `{Sig} :
+  forall (mk_vertex : Sc -> Sc -> V) (sc_of_int : BinNums.Z -> Sc) (v_x v_y : V -> Sc) (tok_of_sc : Sc -> ctok),
+  (forall v, f64_of sc_of_int (tok_of_sc v) = Some v) -> (forall p, mk_vertex (v_x p) (v_y p) = p) ->
+  forall st, wf2 (nd st) (mem st) -> 0 < nd st -> nd st <= 4294967296 -> unused (mem st) 0 = false ->
+  exists st', build_from_items mk_vertex sc_of_int (ser_items v_x v_y tok_of_sc st) = IOk st' /\
+    nd st' = nd st /\
+    (forall i d, i < 3 -> d < nd st -> beta (mem st') i d = beta (mem st) i d) /\
+    (forall d, d < nd st -> unused (mem st') d = unused (mem st) d) /\
+    (forall v, In v (iter_vertices2 (env2 st None) (nd st) (mem st)) -> vertex (mem st') v = vertex (mem st) v).
+Proof. intros mk sc vx vy tk H1 H2. exact (roundtrip_items mk sc vx vy tk H1 H2). Qed.
+Print Assumptions C09_roundtrip_items.
